@@ -6,7 +6,7 @@ NAMES = ["rp", "rpH", "rpL", "rp3", "cbA", "rl2", "bh1", "fbR", "fbH", "cK", "to
 
 
 def accept(m):
-    return m["tag"] in ("evsnap", "counters") or (m["tag"] == "evextra" and m["kind"] == "fn")
+    return m["tag"] in ("evsnap", "counters") or (m["tag"] == "evextra" and m["kind"] == "fn") or "DelayFnSawNonFailure" in m.get("what", "")
 
 
 def run(ctx):
@@ -18,7 +18,7 @@ def run(ctx):
     # what a retry policy's delay function reads (LastResult / LastError of the attempt that just failed) decides the delay
     # (no hedge above it: the sequential machine's hedges never fire)
     rdf = [["rpDF"], ["rpDF", "cbA"], ["fbR", "rpDF"], ["rpDF", "rp"], ["rp", "rpDF"], ["to", "rpDF"], ["rpDF", "bh1"], ["rp3", "cbDF"], ["rpDF", "cbDF"], ["cbDF"]]
-    jobs.append(dict(ctx=ctx, binary=binary, name="rdf", stacks=rdf, outs=seq.OUTS4, maxcalls=3, execs=1, workers=4))
+    jobs.append(dict(ctx=ctx, binary=binary, name="rdf", stacks=rdf, outs=seq.OUTS4, maxcalls=3, execs=2, workers=4))
     mism = seq.run_jobs(ctx, jobs, par=2)
     seq.report(ctx, mism, accept)
     # overlapping hedge attempts and attempts that outlive their timeout: what the function sees when it starts and when it
